@@ -35,7 +35,21 @@ impl<M: MovingAverageConstructor> ChandeKrollStop<M> {
 			&& r->Ok_0.prev_stop_long@ == self.x@ * (candle.high_s()@ - candle.low_s()@) + candle.low_s()@,
 		r is Ok ==> r->Ok_0.highest1.window.view().len() == self.ma.period_s() && r->Ok_0.lowest1.window.view().len() == self.ma.period_s()
 			&& r->Ok_0.highest2.window.view().len() == self.q && r->Ok_0.lowest2.window.view().len() == self.q,
+		// C08: for an averaging kind that cannot overshoot and an ordered candle this is the constant state for that candle (cks_const_step)
+		r is Ok && self.ma.convex_kind() && candle.low_s()@ <= candle.close_s()@ <= candle.high_s()@ ==> r->Ok_0.const_state(candle),
 //@replace Ok(Self::Instance { ==> Ok(ChandeKrollStopInstance {
+//@hint result
+	proof {
+		if r is Ok && self.ma.convex_kind() && candle.low_s()@ <= candle.close_s()@ <= candle.high_s()@ {
+			let i = r->Ok_0;
+			let d = candle.high_s()@ - candle.low_s()@;
+			assert(self.x@ * (-d) == -(self.x@ * d)) by(nonlinear_arith);
+			assert(i.ma.convex() && i.ma.within(d, d));
+			assert(all_eq_v(i.highest2.window.view(), candle.high_s()@ - self.x@ * d));
+			assert(all_eq_v(i.lowest2.window.view(), candle.low_s()@ + self.x@ * d));
+			assert(i.cross_above.last_delta@ == (candle.low_s()@ + self.x@ * d) - (candle.high_s()@ - self.x@ * d));
+		}
+	}
 //@end
 }
 pub open spec fn cks_values<M: MovingAverageConstructor, T: OHLCV>(pre: &ChandeKrollStopInstance<M>, candle: &T, post: &ChandeKrollStopInstance<M>, stop_long: ValueType, stop_short: ValueType,
@@ -92,6 +106,53 @@ impl<M: MovingAverageConstructor> ChandeKrollStopInstance<M> {
 		assert(cks_signals(old(self), r.vals()[1]@, self, r.vals()[0], r.vals()[2], r.sigs()[0], r.sigs()[1], c__));
 	}
 //@end
+}
+
+// ---- C08 at indicator level (averaging kinds that cannot overshoot, ordered candle): ChandeKrollStop fed the candle it was initialised with
+// keeps both stops at high - x*(high-low) and low + x*(high-low), the position signal constant and never gives signal 2
+pub open spec fn all_eq_v(v: Seq<R>, s: real) -> bool { forall|i: int| 0 <= i < v.len() ==> (#[trigger] v[i])@ == s }
+pub proof fn lemma_highest_all_eq(pre: &Highest, x: ValueType, post: &Highest, out: ValueType)
+	requires pre.inv(), all_eq_v(pre.window.view(), x@), Highest::step(pre, &x, post, &out)
+	ensures all_eq_v(post.window.view(), x@), out@ == x@
+{
+	let v = post.window.view();
+	assert forall|i: int| 0 <= i < v.len() implies (#[trigger] v[i])@ == x@ by { if i < v.len() - 1 { assert(v[i] == pre.window.view()[i + 1]); } }
+}
+pub proof fn lemma_lowest_all_eq(pre: &Lowest, x: ValueType, post: &Lowest, out: ValueType)
+	requires pre.inv(), all_eq_v(pre.window.view(), x@), Lowest::step(pre, &x, post, &out)
+	ensures all_eq_v(post.window.view(), x@), out@ == x@
+{
+	let v = post.window.view();
+	assert forall|i: int| 0 <= i < v.len() implies (#[trigger] v[i])@ == x@ by { if i < v.len() - 1 { assert(v[i] == pre.window.view()[i + 1]); } }
+}
+impl<M: MovingAverageConstructor> ChandeKrollStopInstance<M> {
+	pub open spec fn const_state<T: OHLCV>(&self, c: &T) -> bool {
+		let d = c.high_s()@ - c.low_s()@;
+		let (short, long) = (c.high_s()@ - self.cfg.x@ * d, c.low_s()@ + self.cfg.x@ * d);
+		&&& self.inv() && self.ma.convex() && self.ma.within(d, d)
+		&&& self.prev_close == c.close_s() && c.low_s()@ <= c.close_s()@ <= c.high_s()@
+		&&& self.highest1.window.view() =~= konst(self.highest1.window.view().len(), c.high_s()) && self.lowest1.window.view() =~= konst(self.lowest1.window.view().len(), c.low_s())
+		&&& all_eq_v(self.highest2.window.view(), short) && all_eq_v(self.lowest2.window.view(), long)
+		&&& self.prev_stop_short@ == short && self.prev_stop_long@ == long && self.cross_above.last_delta@ == long - short
+	}
+}
+pub proof fn cks_const_step<M: MovingAverageConstructor, T: OHLCV>(pre: &ChandeKrollStopInstance<M>, c: &T, post: &ChandeKrollStopInstance<M>, stop_long: ValueType, stop_short: ValueType,
+	tr: ValueType, atr: ValueType, hh: ValueType, ll: ValueType, phs: ValueType, pls: ValueType, src: real, s1: Action, s2: Action, ca: Action)
+	requires pre.const_state(c), post.inv(), post.cfg == pre.cfg,
+		cks_values(pre, c, post, stop_long, stop_short, tr, atr, hh, ll, phs, pls), cks_signals(pre, src, post, stop_long, stop_short, s1, s2, ca)
+	ensures
+		stop_short@ == c.high_s()@ - pre.cfg.x@ * (c.high_s()@ - c.low_s()@), stop_long@ == c.low_s()@ + pre.cfg.x@ * (c.high_s()@ - c.low_s()@),
+		s2 is None, post.const_state(c)
+{
+	let d = c.high_s()@ - c.low_s()@;
+	assert(tr@ == d);
+	<M::Instance as MovingAverage>::lemma_within_step(&pre.ma, &tr, &post.ma, &atr, d, d);
+	highest_const_step(pre.highest1, c.high_s(), post.highest1, hh);
+	lowest_const_step(pre.lowest1, c.low_s(), post.lowest1, ll);
+	assert(atr@ * (-pre.cfg.x@) == -(pre.cfg.x@ * d)) by(nonlinear_arith) requires atr@ == d;
+	assert(atr@ * pre.cfg.x@ == pre.cfg.x@ * d) by(nonlinear_arith) requires atr@ == d;
+	lemma_highest_all_eq(&pre.highest2, phs, &post.highest2, stop_short);
+	lemma_lowest_all_eq(&pre.lowest2, pls, &post.lowest2, stop_long);
 }
 } // verus!
 fn main() {}
